@@ -4,6 +4,7 @@ from fractions import Fraction
 from g3dvc.runner import Group
 from g3dvc.sym import Sym, SymBool, F, And, Or, Not, Implies, Iff
 from g3dvc import spec as SP
+from g3dvc import sym as S
 from contracts import common as C
 
 PROPERTY = "C06"
@@ -13,10 +14,10 @@ MANIFEST = dict(
     text=("Mixed. PROVED over all real coordinates: Segment.length / Point.distance (r >= 0, r^2 = |B - A|^2); get_triangle_area equals |AB x AC| / 2 for every triangle and never hits a domain error (Heron's radicand is "
           "identically |AB x AC|^2 / 4 >= 0); Pyramid.height = |(apex - p0).n|, Pyramid.volume = h A / 3 within 1e-9 relative (the code's 1/3 is a double), and volume(pyramid) agrees with pyramid.volume() (height through distance(Point, Plane) by its contract); "
           "volume() of other types raises; ConvexPolygon.length = sum of the edge lengths of the cyclic vertex list and ConvexPolygon.area = n.(sum p_i x p_(i+1))/2 for n = 3..6 (thorough: ..8) under the polygon invariant "
-          "(proof script: fan edges in the plane, fan normals parallel to n by BAC-CAB, |w| = w.n by Lagrange, the centre is left of every edge as the mean of the all-pairs edge tests, so every fan triangle is positively oriented and the fan sum is the shoelace sum). "
+          "(proof script: fan edges in the plane, fan normals parallel to n by BAC-CAB, |w| = w.n by Lagrange, the centre is left of every edge as the mean of the all-pairs edge tests, so every fan triangle is positively oriented and the fan sum is the shoelace sum); ConvexPolyhedron.volume / area / length on a tetrahedron with symbolic vertices, faces given in arbitrary orientation, the body built by the real constructor: volume = |det(e1, e2, e3)| / 6 (relative 1e-9), area = sum of the four face areas, length = sum of the six edge lengths, body unchanged (callees by contract: triangle area, Pyramid.volume, Vector.length / normalized). "
           "BOUNDED (labelled, not counted as proved): ConvexPolygon.length/area for other orderings / larger n and ConvexPolyhedron.length/area/volume on catalogue polygons (3-8 vertices) and polyhedra (tetrahedra, boxes, prisms, pyramids, octahedra, hulls) "
           "in oblique poses under vertex permutations, face permutations, face rotations and face orientations, against exact rational cross-product / determinant formulas, relative tolerance 1e-9; volume(x) == x.volume()."),
-    note=("The polygon proofs assume the invariant the constructor establishes (C09: proved for n <= 4, bounded above); the polyhedron pyramid-sum is bounded only. Shape bound n <= 6 (8). A1, A5."),
+    note=("The polygon proofs assume the invariant the constructor establishes (C09: proved for n <= 4, bounded above); the polyhedron sums are proved on tetrahedra only (one orientation pattern on every change, five thorough) and bounded beyond. Shape bound n <= 6 (8). A1, A5."),
     technique="contract-based deductive verification of the triangle / pyramid / segment measures (z3 with ghost scalars) + labelled bounded stand-in with exact rational reference for polygon and polyhedron sums",
     design_ref="DESIGN.md section 9 (C06)",
 )
@@ -243,10 +244,144 @@ def polygon_measure_harness(n):
 _groups_core = groups
 
 
+# ---------------------------------------------------------------------------
+# ConvexPolyhedron.volume / area / length on a tetrahedron with symbolic vertices (faces given in arbitrary orientation; the body is built by
+# the real constructor, whose contract is proved in props/C09): volume = |det(e1, e2, e3)| / 6, area = sum of the four face areas, length = sum
+# of the six edge lengths.  Callees by contract: ConvexPolygon.area of a triangle (proved above, n = 3), Vector.length / normalized (C18).
+# ---------------------------------------------------------------------------
+
+def x_polygon_area(self):
+    """contract of ConvexPolygon.area for a triangle (proved in this file for n = 3): A >= 0, 4 A^2 = |(p1 - p0) x (p2 - p0)|^2"""
+    from g3dvc import sym as S
+    vc = S.engine()
+    vc.hit("ConvexPolygon.area")
+    pts = [SP.vec(p) for p in self.points]
+    if len(pts) != 3:
+        from g3dvc.engine import EngineLimit
+        raise EngineLimit("area contract stub is stated for triangles only")
+    w = SP.cross(SP.sub(pts[1], pts[0]), SP.sub(pts[2], pts[0]))
+    key = ("area",) + tuple(sorted(S.term(c).get_id() for p in pts for c in p))
+    a = vc.sqrt_cache.get(key)  # the same triangle (as a vertex set) has the same area
+    if a is None:
+        a = vc.fresh("area")
+        vc.assume(a >= 0, "ConvexPolygon.area contract: >= 0")
+        vc.assume(4 * a * a == SP.norm2(w), "ConvexPolygon.area contract: 4 A^2 = |AB x AC|^2")
+        vc.sqrt_cache[key] = a
+    vc.record("polygon_area", (a, key))
+    return a
+
+
+def x_pyramid_volume(self):
+    """contract of Pyramid.volume (proved above in h_pyramid): with h >= 0, h^2 = ((apex - p0).n)^2 for the unit normal n of the base and A = base.area():
+    |3 V - h A| <= 1e-9 h A  (1/3 is a double)"""
+    vc = S.engine()
+    vc.hit("Pyramid.volume")
+    cache = vc.sqrt_cache  # (per-path store; the value keeps the pyramid alive, so its id is not reused within the path)
+    if ("pyramid", id(self)) in cache:
+        return cache[("pyramid", id(self))][0]
+    base = self.convex_polygon
+    A = base.area()
+    d = SP.dot(SP.sub(SP.vec(self.point), SP.vec(base.points[0])), SP.vec(base.plane.n))
+    h = vc.fresh("height")
+    vc.assume(h >= 0, "Pyramid.height contract: >= 0")
+    vc.assume(h * h == d * d, "Pyramid.height contract: h^2 = ((apex - p0).n)^2")
+    V = vc.fresh("pyrvol")
+    tol = h * A * Fraction(1, 10 ** 9)
+    vc.assume(And(3 * V - h * A <= tol, h * A - 3 * V <= tol), "Pyramid.volume contract: V = h A / 3 (relative 1e-9)")
+    cache[("pyramid", id(self))] = (V, h, A, self)
+    vc.record("pyramid", (V, h, A, base))
+    return V
+
+
+def tetrahedron_measures_harness(bits):
+    def h(vc):
+        from props import C09
+        g = C.G()
+        b, e1, e2, e3 = C.witness(vc, "b"), C.witness(vc, "e1"), C.witness(vc, "e2"), C.witness(vc, "e3")
+        det = SP.det3(e1, e2, e3)
+        vc.assume(Not(SP.eqz(det)), "the body is not flat (edge vectors independent)")
+        verts = [b, SP.add(b, e1), SP.add(b, e2), SP.add(b, e3)]
+        cycles = [list(c)[::-1] if bits[i] else list(c) for i, c in enumerate(C09.BODIES["tetrahedron"]["faces"])]
+        if vc.symbolic:
+            faces = [C09._face(vc, g, [verts[i] for i in cyc], "f%d" % fi) for fi, cyc in enumerate(cycles)]
+        else:
+            faces = [g.ConvexPolygon(tuple(g.Point(*verts[i]) for i in cyc)) for cyc in cycles]
+        c = [sum(v[k_] for v in verts) / 4 for k_ in range(3)]
+        if vc.symbolic:
+            for f in faces:
+                q = SP.dot(SP.sub(SP.vec(f.plane.p), c), SP.vec(f.plane.n))
+                vc.admit(Or(q >= C.ADM * C.EPS0, q <= -C.ADM * C.EPS0), "centre off every face plane by >= 4 eps")
+        ph = g.ConvexPolyhedron(tuple(faces))  # (contract proved in props/C09; a failure here leaves the path undecided)
+        absdet = abs(det) if not vc.symbolic else (det if vc.branch(F(det > 0)) else -det)
+        ws = [SP.cross(SP.sub(verts[cyc[1]], verts[cyc[0]]), SP.sub(verts[cyc[2]], verts[cyc[0]])) for cyc in cycles]
+        if vc.symbolic:
+            for i, cyc in enumerate(cycles):
+                # w_i . (c - p_i) = +- det / 4 : a ring identity in the coordinates
+                t = SP.dot(ws[i], SP.sub(c, verts[cyc[0]]))
+                vc.hint("face %d: w.(c - p0) squared = det^2 / 16" % i, 16 * t * t == det * det)
+        before = vc.snapshot(ph)
+        ov = vc.call(ph.volume)
+        vc.ensure("volume() does not raise", ov.returned)
+        if ov.returned:
+            v = ov.value
+            if vc.symbolic:
+                # per pyramid: 2 A k = 1 (A the face area, k the normalising factor of the stored normal), (8 h A)^2 = det^2, hence 8 h A = |det|
+                for (V_, h_, A_, base) in vc.log.get("pyramid", []):
+                    i = [j for j, f in enumerate(faces) if f is base or set(S.term(x).get_id() for p in f.points for x in SP.vec(p)) == set(S.term(x).get_id() for p in base.points for x in SP.vec(p))]
+                    if not i:
+                        continue
+                    i = i[0]
+                    kk = vc.real("f%d.k" % i)
+                    w2 = SP.norm2(ws[i])
+                    t = SP.dot(ws[i], SP.sub(c, SP.vec(base.points[0])))
+                    d = SP.dot(SP.sub(c, SP.vec(base.points[0])), SP.vec(base.plane.n))
+                    vc.hint("pyramid %d: (c - p0).n = +- k w.(c - p0)" % i, d * d == kk * kk * t * t)
+                    vc.hint("pyramid %d: 16 (w.(c - p0))^2 = det^2" % i, 16 * t * t == det * det)
+                    vc.have("pyramid %d: (2 A k)^2 = 1" % i, 4 * A_ * A_ * kk * kk == 1, using=[4 * A_ * A_ == w2, kk * kk * w2 == 1], abstract=[w2])
+                    vc.have("pyramid %d: 2 A k = 1" % i, 2 * A_ * kk == 1, using=[A_ >= 0, kk > 0, 4 * A_ * A_ * kk * kk == 1])
+                    vc.have("pyramid %d: 64 (h A)^2 = det^2" % i, 64 * h_ * h_ * A_ * A_ == det * det,
+                            using=[h_ * h_ == d * d, d * d == kk * kk * t * t, 16 * t * t == det * det, 2 * A_ * kk == 1], abstract=[t, d, det])
+                    vc.have("pyramid %d: 8 h A = |det|" % i, 8 * h_ * A_ == absdet, using=[64 * h_ * h_ * A_ * A_ == det * det, h_ >= 0, A_ >= 0, absdet * absdet == det * det, absdet >= 0], abstract=[det])
+            tol = absdet * Fraction(1, 10 ** 9)
+            vc.ensure("volume = |det(e1, e2, e3)| / 6 (relative 1e-9: 1/3 is a double)", And(SP.gez(6 * v - absdet + tol), SP.gez(absdet + tol - 6 * v)))
+        oa = vc.call(ph.area)
+        vc.ensure("area() does not raise", oa.returned)
+        if oa.returned:
+            if vc.symbolic:
+                tri = []
+                for f in faces:
+                    key = ("area",) + tuple(sorted(S.term(x).get_id() for p in f.points for x in SP.vec(p)))
+                    tri.append(vc.sqrt_cache.get(key))
+                vc.ensure("area() = sum of the areas of the four faces, each once", all(t is not None for t in tri) and SP.eq(oa.value, sum(tri)))
+            else:
+                exp = sum(0.5 * float(SP.norm2(w)) ** 0.5 for w in ws)
+                vc.ensure("area() = sum of the areas of the four faces", abs(oa.value - exp) <= 1e-9 * exp)
+        ol = vc.call(ph.length)
+        vc.ensure("length() does not raise", ol.returned)
+        if ol.returned:
+            pairs = [(i, j) for i in range(4) for j in range(i + 1, 4)]
+            if vc.symbolic:
+                exp = sum(vc.sqrt(Sym(SP.norm2(SP.sub(verts[i], verts[j]))), False) for i, j in pairs)
+            else:
+                exp = sum(float(SP.norm2(SP.sub(verts[i], verts[j]))) ** 0.5 for i, j in pairs)
+            vc.ensure("length() = sum of the six edge lengths", SP.eq(ol.value, exp) if vc.symbolic else abs(ol.value - exp) <= 1e-9 * exp)
+        vc.ensure("frame: the polyhedron is unchanged by its measures", vc.snapshot(ph) == before)
+
+    return h
+
+
 def groups(tier):
     from props.C01 import coord_stubs
     cs = coord_stubs() + [(C.T_LENGTH, C.x_length), ("Geometry3D.geometry.polygon:get_triangle_area", x_triangle_area)]
     gs = _groups_core(tier)
+    from props import C09
+    tcs = coord_stubs() + [(C.T_LENGTH, C.x_length), (C.T_NORMALIZED, C.x_normalized), ("Geometry3D.geometry.polygon:ConvexPolygon.__neg__", C09.x_polygon_neg),
+                           ("Geometry3D.geometry.polygon:ConvexPolygon.area", x_polygon_area), ("Geometry3D.geometry.pyramid:Pyramid.volume", x_pyramid_volume)]
+    for bits in ([(0, 0, 0, 0), (1, 0, 0, 1)] if tier == "quick" else [(0, 0, 0, 0), (1, 0, 0, 1), (1, 1, 1, 1), (0, 1, 1, 0), (0, 0, 1, 0)]):
+        gs.append(Group("ConvexPolyhedron.volume / area / length[tetrahedron, face orientations %s]" % "".join(map(str, bits)), tetrahedron_measures_harness(bits),
+                        ["Geometry3D.geometry.polyhedron:ConvexPolyhedron.volume", "Geometry3D.geometry.polyhedron:ConvexPolyhedron.area", "Geometry3D.geometry.polyhedron:ConvexPolyhedron.length",
+                         "Geometry3D.geometry.polyhedron:ConvexPolyhedron.__init__"],
+                        stubs=tcs, world="COORD", timeout_s=1800, prove_ms=30000, expect_hits=["ConvexPolygon.area", "Pyramid.volume"]))
     for n in ((3, 4, 5, 6) if tier == "quick" else (3, 4, 5, 6, 7)):  # n = 8: one spurious path (a pair of edge segments "equal") is not refuted within 90 s, so it would stay undecided
         gs.append(Group("ConvexPolygon.length / area[n=%d]" % n, polygon_measure_harness(n), ["Geometry3D.geometry.polygon:ConvexPolygon.length", "Geometry3D.geometry.polygon:ConvexPolygon.area",
                         "Geometry3D.geometry.polygon:ConvexPolygon.segments"], stubs=cs, world="COORD", timeout_s=1800, prove_ms=30000, expect_hits=["get_triangle_area"]))
